@@ -49,6 +49,7 @@ class Stats(object):
         self.false_candidates = 0
         self.product_witnesses = 0
         self.undecided = 0
+        self.tag_hits = 0
         self.pattern_extensions = 0
         self.samples = []
 
@@ -77,6 +78,7 @@ class Stats(object):
             "false_candidates": self.false_candidates,
             "product_witnesses": self.product_witnesses,
             "undecided_feasibility": self.undecided,
+            "partition_tag_hits": self.tag_hits,
             "pattern_extensions": self.pattern_extensions,
         }
 
@@ -91,6 +93,7 @@ class Stats(object):
         self.false_candidates += other["false_candidates"]
         self.product_witnesses += other.get("product_witnesses", 0)
         self.undecided += other.get("undecided_feasibility", 0)
+        self.tag_hits += other.get("partition_tag_hits", 0)
         self.pattern_extensions += other["pattern_extensions"]
 
 
@@ -131,6 +134,11 @@ class GuardMgr(object):
         self._bcount = 0
         self._alit = {}
         self._pid = 0
+        self.part_total = {}
+        self.part_all = {}
+        self.tagrep = {}
+        self.part_blocks = {}
+        self._in_total = False
         self.verbose = True
         self.deadline = None
         self.min_pop = 1
@@ -198,7 +206,10 @@ class GuardMgr(object):
             else:
                 self.reps.setdefault(n.sig, []).append(n)
         # exactly-one
-        if d > 1:
+        if d > 8:
+            self.solver.add(z3.Or(*lits))
+            self.solver.add(z3.AtMost(*(lits + [1])))
+        elif d > 1:
             self.solver.add(z3.Or(*lits))
             for i in range(d):
                 for j in range(i + 1, d):
@@ -212,6 +223,13 @@ class GuardMgr(object):
     def atom(self, var, label):
         return self.find(var.atoms[var.index[label]])
 
+    def atom_opt(self, var, label):
+        """atom, or FALSE when the label is not in the (restricted) domain"""
+        i = var.index.get(label)
+        if i is None:
+            return self.FALSE
+        return self.find(var.atoms[i])
+
     def find(self, n):
         r = n.rep
         if r is None:
@@ -224,8 +242,45 @@ class GuardMgr(object):
 
     def NOT(self, a):
         a = self.find(a)
-        if a.neg is not None:
-            return self.find(a.neg)
+        n = self.find(a.neg) if a.neg is not None else None
+        if n is not None and n.kind == "const":
+            return n
+        if a.tags:
+            for pid, (sx, ex) in a.tags.items():
+                if ex and self.is_total(pid):
+                    comp = self.part_all[pid] - sx
+                    if not comp:
+                        a.neg = self.FALSE
+                        if n is not None:
+                            n.rep = self.FALSE
+                        return self.FALSE
+                    rep = self.tagrep.get((pid, comp))
+                    if rep is not None:
+                        rep = self.find(rep)
+                        if n is not None and n is not rep and rep is not a:
+                            # both denote the complement block set: same function
+                            n.rep = rep
+                        if rep is not a:
+                            a.neg = rep
+                            if rep.neg is None:
+                                rep.neg = a
+                            self.stats.tag_hits += 1
+                            return rep
+                    else:
+                        if n is None:
+                            n = self._mk("not", a, None)
+                            n.sig = self.ALL ^ a.sig
+                            n.supp = a.supp
+                            n.neg = a
+                            a.neg = n
+                        if n.tags is None:
+                            n.tags = {}
+                        n.tags[pid] = (comp, True)
+                        self.tagrep[(pid, comp)] = n
+                        return n
+                    break
+        if n is not None:
+            return n
         n = self._mk("not", a, None)
         n.sig = self.ALL ^ a.sig
         n.supp = a.supp
@@ -275,6 +330,7 @@ class GuardMgr(object):
             return F
         ta, tb = a.tags, b.tags
         tags = None
+        new_exact = None
         if ta and tb:
             tags = dict(ta)
             for pid, (sb, eb) in tb.items():
@@ -294,15 +350,21 @@ class GuardMgr(object):
                     if inter == sb:
                         self.hc[key] = b
                         return b
+                    rep = self.tagrep.get((pid, inter))
+                    if rep is not None:
+                        rep = self.find(rep)
+                        self.hc[key] = rep
+                        self.stats.tag_hits += 1
+                        return rep
+                    new_exact = (pid, inter)
                 tags[pid] = (inter, ea and eb)
             for pid in ta:
                 if pid not in tb:
                     tags[pid] = (ta[pid][0], False)
         elif ta or tb:
             tags = {pid: (sx, False) for pid, (sx, ex) in (ta or tb).items()}
-        if tags and len(tags) > 8:
-            for pid in sorted(tags)[: len(tags) - 8]:
-                del tags[pid]
+        if tags and len(tags) > 12:
+            self._evict(tags, 12)
         ia, ib = a.imp, b.imp
         imp = None
         if ia and ib:
@@ -322,6 +384,8 @@ class GuardMgr(object):
         n.imp = imp
         n.supp = a.supp | b.supp
         n.tags = tags
+        if new_exact is not None:
+            self.tagrep[new_exact] = n
         self.hc[key] = n
         return n
 
@@ -392,17 +456,40 @@ class GuardMgr(object):
             for x, p, y, q in ((aa, ab, ba, bb), (aa, ab, bb, ba), (ab, aa, ba, bb), (ab, aa, bb, ba)):
                 if x is y and p.neg is not None and self.find(p.neg) is q:
                     return x
+        if a.tags and b.tags:
+            for pid, (sa, ea) in a.tags.items():
+                x = b.tags.get(pid)
+                if x is not None and ea and x[1]:
+                    un = sa | x[0]
+                    if un == sa:
+                        return a
+                    if un == x[0]:
+                        return b
+                    rep = self.tagrep.get((pid, un))
+                    if rep is not None:
+                        self.stats.tag_hits += 1
+                        return self.find(rep)
+                    if self.part_total.get(pid) and un == self.part_all[pid]:
+                        return self.TRUE
         r = self.NOT(self.AND(self.NOT(a), self.NOT(b)))
+        if r.kind == "const":
+            return r
         if r.known is None and r.sig == 0 and (a.known == "sat" or b.known == "sat"):
             r.known = "sat"
-        if a.tags and b.tags and r.tags is None and r.kind != "const":
-            tags = None
+        if a.tags and b.tags:
+            tags = r.tags
             for pid, (sa, ea) in a.tags.items():
                 x = b.tags.get(pid)
                 if x is not None:
                     if tags is None:
                         tags = {}
-                    tags[pid] = (sa | x[0], ea and x[1])
+                    un = sa | x[0]
+                    ex = ea and x[1]
+                    old = tags.get(pid)
+                    if old is None or (ex and not old[1]):
+                        tags[pid] = (un, ex)
+                        if ex:
+                            self.tagrep.setdefault((pid, un), r)
             r.tags = tags
         return r
 
@@ -440,8 +527,44 @@ class GuardMgr(object):
             gs = nxt
         return self.find(gs[0])
 
-    def new_partition(self, guards):
-        """declare that the given guards are pairwise exclusive (alternatives of one union)"""
+    def _evict(self, tags, keep):
+        """drop the least useful tags: inexact ones first (oldest first), then oldest exact"""
+        order = sorted(tags, key=lambda p: (tags[p][1], p))
+        for pid in order[: len(tags) - keep]:
+            del tags[pid]
+
+    def is_total(self, pid):
+        """does the partition cover every assignment (under the current assumption)?  Known by
+        construction, or decided once by the solver and cached."""
+        t = self.part_total.get(pid)
+        if t is not None:
+            return t
+        if self._in_total:
+            return False
+        blocks = self.part_blocks.get(pid)
+        if not blocks:
+            self.part_total[pid] = False
+            return False
+        cov = 0
+        for b in blocks:
+            cov |= self.find(b).sig
+        if cov != self.ALL:
+            self.part_total[pid] = False
+            return False
+        self._in_total = True
+        try:
+            # raw disjunction (no tag reasoning while deciding it)
+            x = z3.Bool("tot%d" % pid)
+            self.solver.add(x == z3.Not(z3.Or(*[self.expr(b) for b in blocks])))
+            r = self._check("totality", [x])
+        finally:
+            self._in_total = False
+        self.part_total[pid] = r == "unsat"
+        return self.part_total[pid]
+
+    def new_partition(self, guards, total=False):
+        """declare that the given guards are pairwise exclusive (alternatives of one union);
+        total: they also cover every assignment (under the current assumption)"""
         gs = [self.find(g) for g in guards]
         gs = [g for g in gs if g.kind != "const"]
         if len(gs) < 2:
@@ -468,13 +591,17 @@ class GuardMgr(object):
                     return
         self._pid += 1
         pid = self._pid
+        self.part_total[pid] = True if (bool(total) and len(gs) == len(guards)) else None
+        self.part_all[pid] = frozenset(range(len(gs)))
+        self.part_blocks[pid] = gs
         for i, g in enumerate(gs):
             t = (frozenset((i,)), True)
+            self.tagrep.setdefault((pid, t[0]), g)
             if g.tags is None:
                 g.tags = {pid: t}
             else:
-                if len(g.tags) >= 8:
-                    del g.tags[min(g.tags)]
+                if len(g.tags) >= 12:
+                    self._evict(g.tags, 11)
                 g.tags[pid] = t
 
     def ITE(self, c, a, b):
@@ -541,6 +668,11 @@ class GuardMgr(object):
         t0 = time.time()
         if self.deadline is not None and t0 > self.deadline:
             raise Inconclusive("deadline exceeded")
+        for l in lits:
+            if z3.is_false(l):
+                return "unsat"
+        if any(z3.is_true(l) for l in lits):
+            lits = [l for l in lits if not z3.is_true(l)]
         if timeout_ms is not None:
             self.solver.set("timeout", timeout_ms)
         if self.trace:
@@ -754,6 +886,10 @@ class GuardMgr(object):
             n.neg.rep = self.TRUE
 
     def _dc(self, todo, kind):
+        if not todo:
+            return
+        todo = [self.find(n) for n in todo]
+        todo = [n for n in todo if n.kind != "const" and n.known is None]
         if not todo:
             return
         if len(todo) == 1:
